@@ -4,8 +4,8 @@
    What is modelled: the curFrame / decompressedOffset cache, the restart-vs-continue decision, dummy
    decoding into the scratch buffer until the target offset, decoding into the caller's buffer at
    position decompressedOffset - offset, the per-frame XXH64 (low 32 bits) check when the frame completes,
-   the move to the next frame through offsetToFrameIndex, the no-output-progress counter, the length clamp
-   at the end of the stream (with its U64 wrap).
+   the move to the next frame through offsetToFrameIndex (and the "frame shorter than its table entry" error),
+   the no-output-progress counter, the length clamp at the end of the stream (with its U64 wrap).
 
    What is abstract: libzstd's streaming decoder and the input side (zs->in, src.read of the size hints).
    A frame is a function [content i] = the bytes the decoder regenerates from the frame entry i points at;
@@ -48,6 +48,9 @@ Section Reader.
   Variable BUFF : N.                          (* SEEKABLE_BUFF_SIZE *)
   Variable NOPROG : N.                        (* ZSTD_SEEKABLE_NO_OUTPUT_PROGRESS_MAX *)
   Variable t : seek_table.
+  (* true = the current code (fix e8679b7: a frame that completes before the end offset its table entry gives is
+     reported as corruption); false = the code before that fix, kept for the livelock refutation witness *)
+  Variable short_frame_check : bool.
 
   (* one ZSTD_decompressStream call with [space] bytes of room; oracle element (k, fin) *)
   Definition dcall (st : rstate) (space : N) (o : N * bool) : list N * bool * rstate :=
@@ -97,6 +100,8 @@ Section Reader.
               else if r_doff st2 <? endpos then
                 match offset_to_frame t (r_doff st2) with
                 | Ok target' =>
+                    if short_frame_check && (w32 target' =? r_cur st2)
+                    then RErr sk_E_corruption_detected dst' st2 else
                     match prelude offset st2 (w32 target') with
                     | Ok st3 => rloop orc' st3 (w32 target') np' dst'
                     | Err c => RErr c dst' st2
